@@ -217,8 +217,14 @@ def run_case(case):
     row["obs1"] = observe(clf, atoms)
     row["input_equal_1"] = same(before, snapshot(atoms))
     row["f0_bad_calls"] = list(F0_BAD)
-    row["obs2"] = observe(clf, atoms)
-    fresh = observe(CL.Classifier(**cfg), atoms)
+    if case.get("single_call"):
+        # C18 conformance runs: one classify call per case (repeatability is C17's business)
+        row["obs2"] = dict(row["obs1"])
+        row["single_call"] = True
+        fresh = row["obs1"]
+    else:
+        row["obs2"] = observe(clf, atoms)
+        fresh = observe(CL.Classifier(**cfg), atoms)
     row["fresh"] = {"kind": fresh["kind"], "cls": fresh.get("cls"), "basis": fresh.get("basis"), "exc": fresh.get("exc")}
     row["input_equal"] = same(before, snapshot(atoms))
     return row
